@@ -290,6 +290,11 @@ def make_builtins(it):
         return v
     reg("$time.monotonic_ns", f_monotonic_ns)
 
+    def f_clock_now(it, args, kw):
+        """spec helper: the value the last time.monotonic_ns() call returned (0 before the first)"""
+        return it.ctx.clock if it.ctx.clock is not None else 0
+    reg("$clock_now", f_clock_now)
+
     def f_monotonic(it, args, kw):
         return SFloat(True)
     reg("$time.monotonic", f_monotonic)
